@@ -1,6 +1,7 @@
 """C06 - no property is returned outside the valid range unsignalled."""
 import math
 import os
+import json
 from fractions import Fraction
 import vlib
 import thermogen
@@ -172,6 +173,24 @@ def run(ctx):
     for i in bad:
         ctx.violate(c05.case_key(cases[i]) + '|corr', 'model and implementation disagree on a correlation (range handling or evaluation)',
                     cases[i], 'model', {k: v for k, v in res[i].items() if k != 'oracle'})
+    # correlations that got their range by MERGING (update): inside the reported range everything with data is defined
+    from props import c13
+    seqs = [c13.gen_seq(ctx) for _ in range(ctx.n(40, 400))]
+    sres = vlib.run_impl_sharded('thermo', seqs, timeout=900)
+    hist['merged'] = 0
+    for job, r in zip(seqs, sres):
+        for k, st in enumerate(r.get('steps', [])):
+            sv = st.get('self_vals') or {}
+            if 'exc' in st or 'cur' not in sv or not st['state']['range'] or not st['state']['tab']:
+                continue
+            hist['merged'] += 1
+            ctx.count(('merged', json.dumps(job['init'], sort_keys=True), k))
+            lo, hi = st['state']['range']
+            for T, v in zip(sv['T'], sv['cur']['cp']):
+                if lo <= T <= hi and ('exc' in v or v.get('v') is None):
+                    ctx.violate('merged-inside:%s' % v.get('exc'), 'Cp/R raised %s inside the range a merged correlation reports' % v.get('exc'),
+                                dict(job, step=k, T=T), 'number', v)
+                    break
     # estimates: shipped + synthetic libraries
     libs = list(thermogen.SHIPPED)
     syn = [thermogen.rnd_library(ctx.rng, os.path.join(vlib.WORK, 'c06_syn_%d' % i))['path'] for i in range(ctx.n(8, 60))]
